@@ -139,6 +139,12 @@ ParseTokens(toks, i, exec, depth, instrs) ==
                                 ELSE ParseTokens(toks, i + 1, exec, depth - 1, instrs)
          [] c.kind = "item"  -> ParseTokens(toks, i + 1, RecPush(exec, c.item, depth), depth, instrs)
 Parse(text, exec, instrs, WS) == ParseTokens(SplitWS(text, 1, "", WS), 1, exec, 0, instrs)
+\* a token with a vector prefix that is not a well-formed literal (wrong or missing terminator, an element the
+\* implementation does not read): what such a text "describes" is not defined; the implementation drops most of them
+\* and reads some leniently, another reading is as good
+VecPrefixed(tok) == StartsWith(tok, "INT[") \/ StartsWith(tok, "FLOAT[") \/ StartsWith(tok, "BOOL[")
+Malformed(tok, instrs) == VecPrefixed(tok) /\ (Classify(tok, instrs).kind = "drop" \/ Ch(tok, Len(tok)) # "]")
+Ambiguous(text, instrs, WS) == LET toks == SplitWS(text, 1, "", WS) IN \E i \in 1..Len(toks) : Malformed(toks[i], instrs)
 
 \* does a concrete item match a parser pattern (float values may be left open)?
 RECURSIVE ItemMatch(_, _)
